@@ -226,7 +226,7 @@ class WritersHarness(Harness):
       else:
         cues, css = rcue.parse_vtt(ex, out)
     except rcue.Ungrammatical as e:
-      ex.fail("C07:grammar", {"reason": str(e)[:80], "tags": tags})
+      ex.fail("C07:grammar", {"reason": re.sub(r"['\"%].*", "", str(e))[:60], "tags": tags})
       return
     parsed = []
     for c in cues:
@@ -298,7 +298,7 @@ class WritersHarness(Harness):
         ex.prove(len(parsed) == len(exp_cues), "C06:cue-count", {"got": len(parsed), "want": len(exp_cues), "tags": tags})
         for (c, plain, st), (i, r, lines, txt) in (zip(parsed, exp_cues) if len(parsed) == len(exp_cues) else []):
           ex.witness("cue-emitted")
-          ex.prove(plain == txt, "C06:payload", {"got": plain[:40], "want": txt[:40], "tags": tags})
+          ex.prove(plain == txt, "C06:payload", {"_got": plain[:40], "_want": txt[:40], "tags": tags})
           sb = zreal(times[i])
           ex.prove(c.begin == round_ms(sb), "C06:cue-begin", {"tags": tags})
           if i + 1 < len(times):
